@@ -93,6 +93,20 @@ CLAIMS = {
         "note": "Trusted: E2 std models incl. core::fmt for the .MERGEn names. Outside: sequences of several merges, namespaces not in the templates.",
         "technique": "bounded symbolic execution of MIR (z3 for the symbolic presence bits), native replay",
     },
+    "C17": {
+        "engine": "E2-mirsym",
+        "text": "load() (decode_raw_bytes + BOM rule, real code from MIR) is executed symbolically on files whose bytes are the reference encoding of k <= 3 symbolic Unicode scalar values in each of the 10 encodings: the loaded text equals the characters. Plus: every byte string up to 4 bytes decodes without panic and odd-length non-UTF-8 input is read as Latin-1.",
+        "design_ref": "DESIGN.md section 4 C17",
+        "note": "Trusted: E2 models of the std UTF-8/UTF-16 decoders and of file I/O (virtual file system). Outside: texts longer than 3 characters, NUL and U+FEFF as content characters.",
+        "technique": "SMT-based bounded symbolic execution of MIR (z3 bit-vectors over symbolic code points), native replay",
+    },
+    "C16": {
+        "engine": "E2-mirsym",
+        "text": "Loading through /include (virtual file system) is compared with loading the flattened text for every splitting of a three-element document into main + inc1 + nested inc2 with quoted/unquoted names; the written file (same directory) and the merge_includes() output must load to an equal model; a missing include must be an error naming the directive.",
+        "design_ref": "DESIGN.md section 4 C16",
+        "note": "Splittings are enumerated by forking. Trusted: virtual file system model. Outside: A2ML includes, directories, separators, self-including files.",
+        "technique": "bounded symbolic execution of MIR (fork per splitting), native replay against real files in a temp directory",
+    },
 }
 
 _PENDING = "check not built yet in this revision of /verif (see DESIGN.md section 7 for the order of work)"
